@@ -55,6 +55,8 @@ class C07(Prop):
             c = lang.dense_cfg(rng, iffxor=False, const_pred=0.0)
         if kind.endswith('_on'):
             c.future = False
+            if rng.random() < 0.35:
+                c.dup = 0.4               # the same stateful sub-formula written twice (one shared online operation)
         if simple:
             c.arith = False
         for _ in range(200):
